@@ -15,23 +15,23 @@ Proof. reflexivity. Qed.
 
 Lemma nseq_succ n : nseq (n + 1) = nseq n ++ [n].
 Proof.
-  unfold nseq. replace (N.to_nat (n + 1)) with (S (N.to_nat n)) by lia.
+  rewrite ?nseq_unfold. replace (N.to_nat (n + 1)) with (S (N.to_nat n)) by lia.
   rewrite seq_S, map_app. cbn [map Nat.add]. rewrite N2Nat.id. reflexivity.
 Qed.
 
 Lemma In_nseq x n : In x (nseq n) <-> x < n.
 Proof.
-  unfold nseq. rewrite in_map_iff. split.
+  rewrite ?nseq_unfold. rewrite in_map_iff. split.
   - intros [y [E H]]. apply in_seq in H. lia.
   - intro H. exists (N.to_nat x). split; [lia | apply in_seq; lia].
 Qed.
 
 Lemma lenN_nseq n : lenN (nseq n) = n.
-Proof. unfold lenN, nseq. rewrite map_length, seq_length. lia. Qed.
+Proof. unfold lenN. rewrite ?nseq_unfold. rewrite map_length, seq_length. lia. Qed.
 
 Lemma nthN_nseq n i d : i < n -> nthN (nseq n) i d = i.
 Proof.
-  intro H. unfold nthN, nseq.
+  intro H. unfold nthN. rewrite ?nseq_unfold.
   rewrite nth_indep with (d' := N.of_nat 0%nat) by (rewrite map_length, seq_length; lia).
   rewrite map_nth, seq_nth by lia. lia.
 Qed.
